@@ -921,6 +921,9 @@ class PendingFunctionDef(_PendingCompoundStmt[FunctionDef]):
 
         # copy args and filter annotations
         original_args = node.args
+        for _arg in original_args.posonlyargs + original_args.args:
+            self.internal_nsp.first_parameter = _arg.arg
+            break
         self.converted_args = converted_args = arguments(
             posonlyargs=[],
             args=[],
